@@ -24,7 +24,8 @@ META = {
         'numeric payload fidelity.'
         ' Also (D1): membership / lookup of a number in a table of non-finite floats is modelled (== membership excludes NaN).'
         ' Also (D1): unit-less quantities may hold non-finite values; isinstance(x, float) narrows number kinds per branch; new shared helpers are read at their call sites.'
-        ' Also: encode/decode with pure codecs is folded, so generated escape tables are read.'),
+        ' Also: encode/decode with pure codecs is folded, so generated escape tables are read.'
+        ' Round 9: (D1) no writer memo keyed by the value.'),
     'rule_text': 'obligations = kinds x versions (inclusion in the spec language), code-point classes x spec-legality, '
                  'layout facts',
     'trusted_base': ['spec/zinc_spec.json transcribes the published grammar; spec/lexforms.json the CPython lexical forms'],
